@@ -7,7 +7,14 @@ PENDING_TRIAGE = False
 
 def items():
     return signing.scenarios() + [s for s in subpacket_values.scenarios() + packets.scenarios() + subpackets.scenarios() if PID in getattr(s, 'props', ())] + [s for s in hashdata.scenarios() + sigalgs.scenarios() if PID in s.props] + \
-        [s for s in messages.scenarios() + tpk.scenarios() if PID in s.props]      # copies of signatures (key.pubkey, copy.copy) carry every field; how a cleartext-signed message is written out ('after export ... it still verifies')
+        _pub() + [s for s in messages.scenarios() + tpk.scenarios() if PID in s.props]      # copies of signatures (key.pubkey, copy.copy) carry every field; how a cleartext-signed message is written out ('after export ... it still verifies')
+
+
+def _pub():
+    # a binding signature or subkey revocation made through the secret key object hashes the body of PrivKeyV4.pubkey(): for ECDH that body
+    # carries the key's own KDF parameters (seeded change C02-13 filled in the curve defaults instead); proved for C07/C18, reused here
+    from contracts import pubexport
+    return [s for s in pubexport.scenarios() if 'PrivKeyV4.pubkey[ECDH' in s.cid]
 
 
 def run(tier='quick', seed=0, only=None):
